@@ -6,7 +6,7 @@
    outside the loop, internal references name looped components. *)
 From Coq Require Import String List NArith Permutation.
 Import ListNotations.
-Require Import V.Lib.PyStr V.Lib.JTree V.Loop.Model V.Loop.Proofs V.Loop.Edges.
+Require Import V.Lib.PyStr V.Lib.JTree V.Loop.Model V.Loop.Proofs V.Loop.Edges V.Loop.Subst.
 Open Scope N_scope.
 
 (* After k further iterations the workflow contains exactly the instances 0..k of every looped component
@@ -111,6 +111,29 @@ Proof.
 Qed.
 Print Assumptions C05_edges_local.
 
+(* Command lines (flowir.rewrite_all_references = one re.sub(r'\b<text>\b', <new>, value, 1) per discovered
+   reference text, in order).  (a) reference texts that do not occur word-bounded in a value leave it unchanged;
+   (b) a value that is one reference text (an entry of the references list) becomes exactly its new form;
+   (c) bounded sweep, the bound being the generator's component names, stages {0,1,3} and iterations
+   {0,1,2,9,10,11,12,25}: the command line "n1:ref n2:ref" is rewritten so that each occurrence names its own
+   instance IF AND ONLY IF the later text does not occur word-bounded inside the earlier one ([overlap], the class
+   of the open finding F5c; C05_sequential_substitution_refuted exhibits the failure). *)
+Theorem C05_substitution_untouched : forall (subs : list (string * string)) (s : string),
+  (forall mr, In mr subs -> wb_occurs (fst mr) None s = false) -> rewrite_seq subs s = s.
+Proof. exact rewrite_seq_no_wb. Qed.
+Print Assumptions C05_substitution_untouched.
+
+Theorem C05_substitution_single : forall (pat rep : string) a rest,
+  pat = String a rest -> wordc a = true -> ow (last_of pat None) = true -> sub_first pat rep None pat = rep.
+Proof. exact sub_first_whole. Qed.
+Print Assumptions C05_substitution_single.
+
+Theorem C05_substitution_sweep : forall (n1 n2 : string) (S i : N),
+  In (n1, n2) name_pairs -> In S stages -> In i iters ->
+  (rewritten S i n1 n2 = intended S i n1 n2 <-> overlap n1 n2 = false).
+Proof. exact sweep_spec. Qed.
+Print Assumptions C05_substitution_sweep.
+
 (* non-vacuity: the three-component loop of tests/test_dowhile.py is well formed; after 12 further iterations
    its instance 12 of "add" reads iteration 11 of "fake_add", outside references see iteration 12, the loop
    reference lists 0..12 in numeric order *)
@@ -133,7 +156,10 @@ Example C05_nonvacuous :
   wf_doc ex_doc2 /\
   cur_cond (unroll ex_doc2 ex_out2 11) = "stage1.11#x/f:output"%string /\
   map_latest KeyInt (unroll ex_doc2 ex_out2 11) (0, "x"%string) = Some "stage0.11#x"%string /\
-  map_latest KeyInt (unroll ex_doc2 ex_out2 11) (1, "x"%string) = Some "stage1.11#x"%string.
+  map_latest KeyInt (unroll ex_doc2 ex_out2 11) (1, "x"%string) = Some "stage1.11#x"%string /\
+  (* command lines: 132 name pairs are swept, 'b' then 'a-b' is rewritten as intended *)
+  length name_pairs = 132%nat /\ overlap "b" "a-b" = false /\
+  rewritten 1 10 "b" "a-b" = "stage1.10#b:ref stage1.10#a-b:ref"%string.
 Proof.
   split; [exact ex_doc_wf|]. split.
   - vm_compute. do 36 right. left. reflexivity.
@@ -143,5 +169,7 @@ Proof.
     split.
     { intros b v H. cbn in H. destruct (String.eqb b "number"); [|discriminate]. inversion H. reflexivity. }
     split; [vm_compute; reflexivity|]. split; [vm_compute; reflexivity|]. split; [vm_compute; reflexivity|].
-    split; [vm_compute; reflexivity|]. split; [exact ex_doc2_wf|]. vm_compute. repeat split.
+    split; [vm_compute; reflexivity|]. split; [exact ex_doc2_wf|].
+    split; [vm_compute; reflexivity|]. split; [vm_compute; reflexivity|]. split; [vm_compute; reflexivity|].
+    vm_compute. repeat split.
 Qed.
